@@ -59,6 +59,7 @@ import (
 	"fmt"
 	"io"
 	"os"
+	"sync"
 	"time"
 
 	AppCore "github.com/goblimey/go-ntrip/apps/appcore"
@@ -179,28 +180,46 @@ func HandleMessages(startTime time.Time, reader io.Reader, writer io.Writer, con
 	bufferedReader := bufio.NewReader(reader)
 
 	channels := make([]chan rtcm.Message, 0)
+	var writers sync.WaitGroup
 
 	messageChan := make(chan rtcm.Message)
-	go writeRTCMMessages(messageChan, writer)
+	writers.Add(1)
+	go func() {
+		defer writers.Done()
+		writeRTCMMessages(messageChan, writer)
+	}()
 	channels = append(channels, messageChan)
 
 	if config.DisplayMessages {
 		displayLogWriter :=
 			dailylogger.New(config.MessageLogDirectory, "rtcm.", ".txt")
 		displayChan := make(chan rtcm.Message)
-		go writeReadableMessages(displayChan, displayLogWriter)
+		writers.Add(1)
+		go func() {
+			defer writers.Done()
+			writeReadableMessages(displayChan, displayLogWriter)
+		}()
 		channels = append(channels, displayChan)
 	}
 	if config.RecordMessages {
 		messageLogWriter := dailylogger.New(config.MessageLogDirectory, "rtcmfilter.", ".rtcm")
 		rtcmChan := make(chan rtcm.Message)
-		go writeRTCMMessages(rtcmChan, messageLogWriter)
+		writers.Add(1)
+		go func() {
+			defer writers.Done()
+			writeRTCMMessages(rtcmChan, messageLogWriter)
+		}()
 		channels = append(channels, rtcmChan)
 	}
 
 	appCore := AppCore.New(config, channels)
 	appCore.HandleMessagesUntilEOF(startTime, bufferedReader)
 
-	// We only get to here if the handler stops.
-	close(messageChan)
+	// The input is exhausted.  Close all the channels, which stops the writers,
+	// and wait until they have written everything - the caller exits as soon
+	// as this function returns.
+	for _, channel := range channels {
+		close(channel)
+	}
+	writers.Wait()
 }
